@@ -367,10 +367,18 @@ def foreign_readers(seed, n=10, home_own_volume=False):
     obs = []
     try:
         rootb = os.fsencode(box.root)
-        kinds = ['home', 't1', 't2', 'c']
+        # 'clink': the --trash-dir of kind 'c', but every command is given it through a symlink that lives on the root
+        # volume: relative Path= values are then relative to the volume of the path as spelled (the root), for all readers
+        kinds = ['home', 't1', 't2', 'c', 'clink']
+        link_td = os.path.join(box.root, 'to-m1', os.path.basename(box.tdir('c')))
         ents = []
         for i in range(n):
             kind = rnd.choice(kinds)
+            linked = kind == 'clink'
+            if linked:
+                kind = 'c'
+                if not os.path.lexists(os.path.join(box.root, 'to-m1')):
+                    os.symlink(os.path.join(box.root, 'm1'), os.path.join(box.root, 'to-m1'))
             tdir = os.fsencode(box.make_tdir(kind))
             inside_v1 = rnd.random() < 0.7 or kind != 'home'
             top = rootb + b'/m1' if (kind != 'home') else (rootb if rnd.random() < 0.5 else rootb + b'/m1')
@@ -381,21 +389,24 @@ def foreign_readers(seed, n=10, home_own_volume=False):
             name = rand_name(rnd, maxlen=60, utf8_only=True)
             absp = top + b'/' + b'/'.join(dirs + [name])
             relp = b'/'.join(dirs + [name]) if kind != 'home' or rnd.random() < 0.3 else None
+            if linked:
+                relp = b'm1/' + relp
             content, strict = foreign_contents(rnd, absp, relp)
             slot = b'f%d' % i
             with open(tdir + b'/info/' + slot + b'.trashinfo', 'wb') as f:
                 f.write(content)
             with open(tdir + b'/files/' + slot, 'wb') as f:
                 f.write(b'payload %d' % i)
-            ents.append({'kind': kind, 'tdir': tdir, 'slot': slot, 'content': content, 'strict': strict, 'i': i})
+            ents.append({'kind': kind, 'tdir': tdir, 'slot': slot, 'content': content, 'strict': strict, 'i': i, 'linked': linked,
+                         'td_arg': link_td if linked else os.fsdecode(tdir)})
         # what each reader sees: we do not know the paths in advance (that is the question), so outputs are parsed by
         # stripping the date prefix of each record; records are delimited using the payload-path column of --files
         views = {}
         for e in ents:
-            td = os.fsdecode(e['tdir'])
+            td = e['td_arg']
             args_td = ['--trash-dir', td] if e['kind'] == 'c' else []
             lres = box.run('trash-list', args_td + ['--files'])
-            e['list'] = find_by_payload(lres['stdout'], e['tdir'] + b'/files/' + e['slot'])
+            e['list'] = find_by_payload(lres['stdout'], os.fsencode(td) + b'/files/' + e['slot'] if e['linked'] else e['tdir'] + b'/files/' + e['slot'])
             rargs = (['--trash-dir', td] if e['kind'] == 'c' else []) + ['/']
             rres = box.run('trash-restore', rargs, stdin=b'')
             e['restore_out'] = rres['stdout']
@@ -411,6 +422,8 @@ def foreign_readers(seed, n=10, home_own_volume=False):
         # trash-rm with the exact path as trash-list shows it; trash-empty at the date boundary
         for e in ents:
             base = B(os.fsencode(box.tbase(e['kind']))) if e['kind'] != 'home' else B(b'/')
+            if e['linked']:
+                base = B(rootb)
             lp = e['list']
             date_l = parse_date_field(lp[1]) if lp else None
             if e['strict'] and not (e['kind'] == 'home' and is_relative(e['content'])):
@@ -435,7 +448,7 @@ def foreign_readers(seed, n=10, home_own_volume=False):
             if not os.path.lexists(e['tdir'] + b'/info/' + e['slot'] + b'.trashinfo'):
                 continue       # already purged by an earlier probe of a neighbour
             date_l = parse_date_field(lp[1])
-            td = os.fsdecode(e['tdir'])
+            td = e['td_arg']
             if e['kind'] != 'c':
                 # one byte different must not match, the exact path must
                 near = lp[0][:-1] + bytes([lp[0][-1] ^ 1 or 2])
